@@ -30,8 +30,9 @@ EmitTRSel == \/ (Chk(A) + 7 * Chk(A') + Chk(B) + Len(A) + SeedVal) % EmitMod # 0
              \/ EmitTR
 
 \* requested values: present, missing (3), several in either order, and the empty request
-MCValSeqs == [f \in {"sid", "tomo", "obj", "cls"} |-> { <<>>, <<1>>, <<2>>, <<3>>, <<1, 2>>, <<2, 1>>, <<3, 1>> }]
-MCSplitFields == {"sid", "tomo", "obj", "cls"}
+MCValSeqs == [f \in {"sid", "tomo", "obj", "cls", "score"} |->
+                 IF f = "score" THEN { <<1>>, <<2, 1>>, <<3>> } ELSE { <<>>, <<1>>, <<2>>, <<3>>, <<1, 2>>, <<2, 1>>, <<3, 1>> }]
+MCSplitFields == {"sid", "tomo", "obj", "cls", "score"}
 MCStarts == {1, 4}
 MCOrders == { <<"a">>, <<"b">>, <<"a", "b">>, <<"b", "a">>, <<"a", "b", "a2">>, <<"b", "a2", "a">>, <<"b", "a", "b2">>,
               <<"a", "b", "b2", "a2">>, <<"b2", "a", "a2", "b">> }
@@ -40,6 +41,8 @@ MCOrders == { <<"a">>, <<"b">>, <<"a", "b">>, <<"b", "a">>, <<"a", "b", "a2">>, 
 FileRows(x) == [i \in DOMAIN x |-> R(x[i][1], x[i][2], x[i][3], x[i][4], x[i][5], x[i][6])]
 FileInits == LET recs == ndJsonDeserialize(IOEnv.INIT_FILE)
              IN  { <<FileRows(recs[i].a), FileRows(recs[i].b)>> : i \in DOMAIN recs }
-SimValSeqs == [f \in {"sid", "tomo", "obj", "cls"} |->
-                 IF f = "sid" THEN { <<97>>, <<2, 1>>, <<0>> } ELSE { <<1>>, <<2, 3>>, <<3, 1>>, <<9>>, <<0>>, <<1, 0>> }]
+SimValSeqs == [f \in {"sid", "tomo", "obj", "cls", "score"} |->
+                 IF f = "sid" THEN { <<97>>, <<2, 1>>, <<0>> }
+                 ELSE IF f = "score" THEN { <<1>>, <<2, 3>>, <<41>> }           \* score tokens 1..40; 41 does not occur
+                 ELSE { <<1>>, <<2, 3>>, <<3, 1>>, <<9>>, <<0>>, <<1, 0>> }]
 =============================================================================
